@@ -1,8 +1,9 @@
 """C09 smart-dial ranking is a complete, well-ordered permutation — path counting (K2), order (K3), abstract evaluation (K7)."""
 import re
 
-from .. import lib, mir
+from .. import absint, ipatoms, lib, mir
 from ..mir import render
+from .c22 import classify
 
 EXPLANATION = ("rank_dials: every input dial is pushed to exactly one of the four group vectors, the classification table "
                "(relay / !global => private / has IP => public / other) is evaluated exhaustively, each group is consumed exactly once and "
@@ -10,7 +11,7 @@ EXPLANATION = ("rank_dials: every input dial is pushed to exactly one of the fou
                "exactly once and every reordered dial enters the result exactly once, sorted by score; score's transport rank table "
                "(QuicV1<Quic<WebTransport<Tcp<WebRTCDirect<other) and is_global_addr's decision table (IP4 -> is_global_ipv4, IP6 -> "
                "is_global_ipv6, Ip6zone -> false, localhost names -> false, other DNS names -> true) are evaluated over all cells.")
-ASSUMPTIONS = ["numeric delay values beyond the group order are not decided", "is_global_ipv4/ipv6 prefix tables are decided under C22's IANA rule",
+ASSUMPTIONS = ["numeric delay values beyond the group order are not decided", 
                "addresses with neither IP nor DNS component are don't-care in the is_global_addr table"]
 SW = "libp2p_swarm"
 DR = r"connection::pool::dial_ranker::"
@@ -209,3 +210,7 @@ def check(ctx):
             return "false" if local else "true"
         return None
     lib.check_cells2(ctx, "is_global_addr", "table", ga, res, val, am, dom, ref, "%s:%d" % (ga.file, ga.line))
+
+    # ---- IP tables behind is_global_addr: same IANA rule as C22, on the ranker's own copies
+    classify(ctx, "ranker ipv4", SW, DR + r"is_global_ipv4$", 8, 4, r"net::Ipv4Addr::octets$", ipatoms.v4_atoms(), "iana_special_v4.json")
+    classify(ctx, "ranker ipv6", SW, DR + r"is_global_ipv6$", 16, 8, r"net::Ipv6Addr::segments$", ipatoms.v6_atoms(), "iana_special_v6.json")
